@@ -21,7 +21,7 @@ class LoopCheck(Check):
         "numpy.random.Generator / orng.ArrayRNG -> counter-indexed symbolic stream (choice -> symbolic indices in [0,N)); bit_generator.state is (stream, counter); the k-th generator the library constructs within one run always starts in the same state",
         "minipcn / emcee (absent here) -> fake modules: the kernel calls the target it was given on its start positions, consumes the generator it was given and returns fresh symbolic positions keyed by the generator state",
         "SMCSampler.sample -> logging-stripped copy compiled from the current source; its beta_tolerance default is 1/4 in this harness so that every probe temperature is a dyadic rational",
-        "preconditioning: the real IdentityTransform",
+        "preconditioning: the real IdentityTransform; C10 also runs the real logit CompositeTransform (symbolic bounds) -- for EmceeSMC NumpySMCSampler's re-instantiation of that transform on numpy is replaced by the same transform on the symbolic namespace",
     ]
     outside = [
         "the inside of minipcn / emcee / blackjax; BlackJAX's mutate (jax vmap/scan) is not executed",
